@@ -112,11 +112,53 @@ def ob_c(letter: int, alt: int, octave: int, alt2: int, low2: bool) -> bool:
     return True
 
 
+OCT_D = (-1, 0, 1, 4, 9)
+
+
+def ob_d(letter: int, alt: int, oi: int, alt2: int, oi2: int) -> bool:
+    """Histories on ONE letter: two spellings of the same letter (any two alterations / registers) go through fresh codec
+    objects one after the other, then the first again; an answer may not depend on what was converted before
+    (e.g. a memo keyed by name + octave cannot tell C at octave -1 from C-flat at octave 1)."""
+    octs = OCT_D if not ctx.thorough() else tuple(range(-3, 13))
+    assume(0 <= letter < 7)
+    assume(-3 <= alt <= 3)
+    assume(-3 <= alt2 <= 3)
+    assume(0 <= oi < len(octs))
+    assume(0 <= oi2 < len(octs))
+    octave, octave2 = octs[oi], octs[oi2]
+    s1 = spelling(letter, alt, octave)
+    s2 = spelling(letter, alt2, octave2)
+    p1 = kp.HumdrumPitchImporter().import_pitch(s1)
+    p2 = kp.HumdrumPitchImporter().import_pitch(s2)
+    check(p1.octave == octave and p2.octave == octave2, lambda: f'octaves of {s1!r}, {s2!r}: {p1.octave}, {p2.octave}')
+    o1 = kp.HumdrumPitchExporter().export_pitch(p1)
+    o2 = kp.HumdrumPitchExporter().export_pitch(p2)
+    o1b = kp.HumdrumPitchExporter().export_pitch(p1)
+    check(o1 == s1, lambda: f'export_pitch = {o1!r} for {s1!r}')
+    check(o2 == s2, lambda: f'{s1!r} exported, then {s2!r}: second answer {o2!r}')
+    check(o1b == s1, lambda: f'{s1!r}, {s2!r}, {s1!r} exported in a row: third answer {o1b!r}')
+    q2 = kp.HumdrumPitchImporter().import_pitch(o2)
+    check(q2 == p2, lambda: f're-import of {o2!r} gives {q2} != {p2}')
+    return True
+
+
+def _desc_d(letter, alt, oi, alt2, oi2):
+    octs = OCT_D if not ctx.thorough() else tuple(range(-3, 13))
+    return {'first': spelling(letter, alt, octs[oi]), 'second': spelling(letter, alt2, octs[oi2])}
+
+
 def _desc_a(letter, alt, octave):
     return {'spelling': spelling(letter, alt, octave)}
 
 
 OBLIGATIONS = [
+    Ob(id='C16.d', fn=ob_d, title='histories on one letter: two spellings of the same letter through fresh codec objects, then the first again',
+       shard_of=lambda letter, alt, oi, alt2, oi2: letter + 7 * (alt + 3),
+       shards={'quick': 16, 'thorough': 16}, budget_s={'quick': 170, 'thorough': 2400},
+       witnesses=[{'letter': 0, 'alt': 0, 'oi': 0, 'alt2': -1, 'oi2': 2}], min_confirmed=500,
+       symbolic='letter, two alterations, two register indices (integers)', enumerated='-',
+       bounds={'quick': '7 letters x (alterations -3..3 x octaves {-1,0,1,4,9}) squared', 'thorough': '7 letters x (alterations -3..3 x octaves -3..12) squared'},
+       describe=_desc_d),
     Ob(id='C16.c', fn=ob_c, title='histories: one importer / exporter reused across different pitches',
        shard_of=lambda letter, alt, octave, alt2, low2: letter + 7 * (alt + 3),
        shards={'quick': 16, 'thorough': 16}, budget_s={'quick': 170, 'thorough': 1200},
